@@ -134,7 +134,10 @@ def c02(run, refs, qrys):
                         bad.append('QryLen_is_first_to_last_label')
                     pairs = rec['_pairs']
                     if pairs and all(1 <= r <= len(rpos) and 1 <= q <= len(qpos) for r, q in pairs):
-                        if rec['RefStartPos'] != fmt1(rpos[pairs[0][0] - 1]) or rec['RefEndPos'] != fmt1(rpos[pairs[-1][0] - 1]):
+                        # (the clauses about the listed pairs presuppose a valid matching - pairs listed in ascending reference order is C01's; an
+                        # invalid one, e.g. a joined record hit by known finding K2, is reported there)
+                        if not c01_pairs(pairs, rec['Orientation'], len(rpos), len(qpos)) and \
+                                (rec['RefStartPos'] != fmt1(rpos[pairs[0][0] - 1]) or rec['RefEndPos'] != fmt1(rpos[pairs[-1][0] - 1])):
                             bad.append('RefStartPos_RefEndPos_are_first_and_last_listed_reference_labels')
                         qlabels = [q for _, q in pairs]
                         if c01_pairs(pairs, rec['Orientation'], len(rpos), len(qpos)):
